@@ -1,40 +1,85 @@
 ---- MODULE TraceRng ----
-(* Trace specification for C06, on the real generator word values recorded through hook H1.                 *)
+(* Trace specification for C06, on the real generator word values recorded through hook H1.  32-bit words    *)
+(* are recorded as two 16-bit limbs <<hi, lo>> so that TLC can do exact arithmetic on them.                  *)
+(*   Seed(w, s) : thread w entered srand_(s)                                                                 *)
 (*   Wrote(w, v): thread w stored v into its generator word (srand_, or the write half of a draw)            *)
 (*   Read(w, v) : thread w copied v out of the word (the read half of a draw)                               *)
+(*   Clock(w)   : thread w read the wall clock inside the library (Rng.tla DoClock: a draw on a word nobody  *)
+(*                seeded, or srand_(time(NULL)) in the two routines whose contract is a clock seed: Run.ts=1) *)
+(*   Clear      : a new recorded run of the same case starts (thread numbering starts again)                 *)
 (* StreamIsolation (Rng.tla) on real values: what a thread reads is what that same thread wrote last - the   *)
-(* seeded stream consumed by one thread is never perturbed by another.  Seq/Result: the result of the run    *)
-(* under the forced schedule (or another thread count / a repeated run) is bit-identical to the reference.   *)
+(* seeded stream consumed by one thread is never perturbed by another - and a thread only draws from a word  *)
+(* it has seeded itself (NoClock).  Seq/Result: the result of the run under the forced schedule (or another   *)
+(* thread count / a repeated run / a run on a fresh thread) is bit-identical to the reference.               *)
+(* Implementation-shaped layer (PropOnly = FALSE): the stream of a thread is the stream its seed defines     *)
+(* under the library's generator step RealGen (numeric.c generate_seed: 0x7AFB2C23 * s + 0x894C3 mod 2^32),   *)
+(* i.e. srand_(s) stores RealGen(s) and every draw stores RealGen(word read); routines recorded with         *)
+(* Run.co = 1 draw on the calling thread only.                                                              *)
 EXTENDS TraceBase, Integers
 CONSTANT PropOnly
 Threads == 0..63
-VARIABLES l, phase, last, has, ref, nres
-tvars == <<l, phase, last, has, ref, nres>>
+B16 == 65536
+AH == 31483   \* 0x7AFB
+AL == 11299   \* 0x2C23
+CH == 8       \* 0x894C3 = 8 * 65536 + 38083
+CL == 38083
+RealGen(x) == LET h == x[1]
+                  lo == x[2]
+                  p0 == AL * lo
+                  mid == (((AH * lo) % B16) + ((AL * h) % B16) + (p0 \div B16)) % B16
+                  lo1 == (p0 % B16) + CL
+                  hi1 == mid + CH + (lo1 \div B16)
+              IN <<hi1 % B16, lo1 % B16>>
+VARIABLES l, phase, last, has, pend, hasp, ref, nres, co, ts
+tvars == <<l, phase, last, has, pend, hasp, ref, nres, co, ts>>
 Ev == Tr[l]
 Step == l' = l + 1
-Clean == [w \in Threads |-> ""]
-TInit == l = 1 /\ phase = "idle" /\ last = Clean /\ has = [w \in Threads |-> FALSE] /\ ref = <<0, 0, 0>> /\ nres = 0
+Clean == [w \in Threads |-> <<0, 0>>]
+None == [w \in Threads |-> FALSE]
+Pair(v) == <<v[1], v[2]>>
+TInit == /\ l = 1 /\ phase = "idle" /\ last = Clean /\ has = None /\ pend = Clean /\ hasp = None
+         /\ ref = <<0, 0, 0>> /\ nres = 0 /\ co = 0 /\ ts = 0
 TReset == /\ l <= Len(Tr) /\ Ev.e = "Reset" /\ phase = "idle" /\ Step
-          /\ last' = Clean /\ has' = [w \in Threads |-> FALSE] /\ ref' = <<0, 0, 0>> /\ nres' = 0 /\ phase' = "reset"
-TRun == /\ l <= Len(Tr) /\ Ev.e = "Run" /\ phase = "reset" /\ Step /\ phase' = "run" /\ UNCHANGED <<last, has, ref, nres>>
+          /\ last' = Clean /\ has' = None /\ pend' = Clean /\ hasp' = None /\ ref' = <<0, 0, 0>> /\ nres' = 0 /\ phase' = "reset"
+          /\ co' = 0 /\ ts' = 0
+TRun == /\ l <= Len(Tr) /\ Ev.e = "Run" /\ phase = "reset" /\ Step /\ phase' = "run"
+        /\ co' = (IF Has(Ev, "co") THEN Ev.co ELSE 0) /\ ts' = (IF Has(Ev, "ts") THEN Ev.ts ELSE 0)
+        /\ UNCHANGED <<last, has, pend, hasp, ref, nres>>
 TSeq == /\ l <= Len(Tr) /\ Ev.e = "Seq" /\ phase = "run" /\ Step
-        /\ ref' = <<Ev.h[1], Ev.h[2], Ev.h[3]>> /\ phase' = "rec" /\ UNCHANGED <<last, has, nres>>
+        /\ ref' = <<Ev.h[1], Ev.h[2], Ev.h[3]>> /\ phase' = "rec" /\ UNCHANGED <<last, has, pend, hasp, nres, co, ts>>
+TClear == /\ l <= Len(Tr) /\ Ev.e = "Clear" /\ phase = "rec" /\ Step
+          /\ last' = Clean /\ has' = None /\ pend' = Clean /\ hasp' = None /\ UNCHANGED <<phase, ref, nres, co, ts>>
+OnCaller(w) == PropOnly \/ co = 0 \/ w = 0
+TSeed == /\ l <= Len(Tr) /\ Ev.e = "Seed" /\ phase = "rec" /\ Step
+         /\ OnCaller(Ev.w)
+         /\ pend' = [pend EXCEPT ![Ev.w] = RealGen(Pair(Ev.s))] /\ hasp' = [hasp EXCEPT ![Ev.w] = TRUE]
+         /\ UNCHANGED <<phase, last, has, ref, nres, co, ts>>
 TWrote == /\ l <= Len(Tr) /\ Ev.e = "Wrote" /\ phase = "rec" /\ Step
-          /\ last' = [last EXCEPT ![Ev.w] = Ev.v] /\ has' = [has EXCEPT ![Ev.w] = TRUE]
-          /\ UNCHANGED <<phase, ref, nres>>
+          /\ OnCaller(Ev.w)
+          /\ (PropOnly \/ ~hasp[Ev.w] \/ Pair(Ev.v) = pend[Ev.w])     \* the stream is the one the seed defines
+          /\ last' = [last EXCEPT ![Ev.w] = Pair(Ev.v)] /\ has' = [has EXCEPT ![Ev.w] = TRUE]
+          /\ UNCHANGED <<phase, pend, hasp, ref, nres, co, ts>>
 TRead == /\ l <= Len(Tr) /\ Ev.e = "Read" /\ phase = "rec" /\ Step
-         /\ has[Ev.w] /\ Ev.v = last[Ev.w]                       \* StreamIsolation on the real word values
-         /\ UNCHANGED <<phase, last, has, ref, nres>>
+         /\ OnCaller(Ev.w)
+         /\ has[Ev.w] /\ Pair(Ev.v) = last[Ev.w]                  \* StreamIsolation on the real word values
+         /\ pend' = [pend EXCEPT ![Ev.w] = RealGen(Pair(Ev.v))] /\ hasp' = [hasp EXCEPT ![Ev.w] = TRUE]
+         /\ UNCHANGED <<phase, last, has, ref, nres, co, ts>>
+TClock == /\ l <= Len(Tr) /\ Ev.e = "Clock" /\ phase = "rec" /\ Step
+          /\ ts = 1                                                 \* NoClock, unless a clock seed is the routine's contract
+          /\ UNCHANGED <<phase, last, has, pend, hasp, ref, nres, co, ts>>
 TResult == /\ l <= Len(Tr) /\ Ev.e = "Result" /\ phase = "rec" /\ Step
            /\ <<Ev.h[1], Ev.h[2], Ev.h[3]>> = ref               \* bit-identical to the sequential / reference run
-           /\ nres' = nres + 1 /\ UNCHANGED <<phase, last, has, ref>>
+           /\ nres' = nres + 1 /\ UNCHANGED <<phase, last, has, pend, hasp, ref, co, ts>>
 \* implementation-shaped observation: the validation call leaves the caller's own seeded stream untouched
 TCaller == /\ l <= Len(Tr) /\ Ev.e = "Caller" /\ phase = "rec" /\ Step /\ (PropOnly \/ Ev.same = 1)
-           /\ UNCHANGED <<phase, last, has, ref, nres>>
+           /\ UNCHANGED <<phase, last, has, pend, hasp, ref, nres, co, ts>>
 TEnd == /\ l <= Len(Tr) /\ Ev.e = "End" /\ phase = "rec" /\ Step /\ nres >= 1
-        /\ phase' = "idle" /\ UNCHANGED <<last, has, ref, nres>>
-TNext == TReset \/ TRun \/ TSeq \/ TWrote \/ TRead \/ TResult \/ TCaller \/ TEnd
+        /\ phase' = "idle" /\ UNCHANGED <<last, has, pend, hasp, ref, nres, co, ts>>
+TNext == TReset \/ TRun \/ TSeq \/ TClear \/ TSeed \/ TWrote \/ TRead \/ TClock \/ TResult \/ TCaller \/ TEnd
 TSpec == TInit /\ [][TNext]_tvars
 TraceAccepted == Accepted
 Diag == ShowCursor(l)
+\* self-check of the limb arithmetic against known values of generate_seed (evaluated once by the ASSUME)
+ASSUME RealGen(<<0, 0>>) = <<8, 38083>>
+ASSUME RealGen(<<0, 1>>) = <<31491, 49382>>
 ====
